@@ -276,7 +276,7 @@ uint32_t qhashmurmur3_32(const void *data, size_t nbytes) {
     int i;
     uint32_t k;
     for (i = 0; i < nblocks; i++) {
-        k = blocks[i];
+        memcpy(&k, &blocks[i], sizeof(k));  // data may be unaligned
 
         k *= c1;
         k = (k << 15) | (k >> (32 - 15));
@@ -349,8 +349,8 @@ bool qhashmurmur3_128(const void *data, size_t nbytes, void *retbuf) {
     int i;
     uint64_t k1, k2;
     for (i = 0; i < nblocks; i++) {
-        k1 = blocks[i * 2 + 0];
-        k2 = blocks[i * 2 + 1];
+        memcpy(&k1, &blocks[i * 2 + 0], sizeof(k1));  // data may be unaligned
+        memcpy(&k2, &blocks[i * 2 + 1], sizeof(k2));
 
         k1 *= c1;
         k1 = (k1 << 31) | (k1 >> (64 - 31));
